@@ -18,6 +18,35 @@ CLAIMED = {
         "technique": T_SYMX + "; GF(2)-affine normal form for CRC bits; symbolic column indices into the syndrome "
                               "table for weight-2/3/4/5 minimum-distance queries",
     },
+    "C02": {
+        "text": "bounded symbolic checking: for every address, payload, DF (symbolic per class), both lengths and every "
+                "per-nibble hex case, icao()/adsb.icao()/allcall.icao() return '%06X' % address (AA field or parity XOR "
+                "AP with AP built by the oracle), None for all other formats.",
+        "design_ref": "DESIGN.md section 5 C02", "note": NOTE, "technique": T_SYMX,
+    },
+    "C07": {
+        "text": "bounded symbolic checking: all 13-bit codes and 12-bit fields as solver variables against the Annex 10 "
+                "Gillham/Q/M oracle, every other frame bit free, DF/TC symbolic; plus a QF_FP lemma that "
+                "int(N*3.28084) in binary64 equals floor(N*328084/100000) for all 12-bit N.",
+        "design_ref": "DESIGN.md section 5 C07", "note": NOTE, "technique": T_SYMX + "; QF_FP lemma for the metric code",
+    },
+    "C08": {
+        "text": "bounded symbolic checking: all 2^13 identity codes (incl. X), FS/DR/IIS/IDS/CA and the DF11 II/SI overlay "
+                "as solver variables with all other bits free and DF symbolic; each decoder returns the field or raises "
+                "RuntimeError outside its formats.",
+        "design_ref": "DESIGN.md section 5 C08", "note": NOTE, "technique": T_SYMX,
+    },
+    "C10": {
+        "text": "bounded symbolic checking: eight symbolic 6-bit codes under the legality constraint (all 37^8 "
+                "identifications), per-position equality with the Annex 10 alphabet, category, TC/DF guards.",
+        "design_ref": "DESIGN.md section 5 C10", "note": NOTE, "technique": T_SYMX,
+    },
+    "C18": {
+        "text": "bounded symbolic checking: uplink_icao inverts the Annex 10 uplink AP construction for every address and "
+                "data bits (both lengths); uf/bds/pr/ic/lockout/uplink_fields equal the Annex 10 field map for every "
+                "UF/RR/DI/SD/PR/IC/CL combination with all other bits free.",
+        "design_ref": "DESIGN.md section 5 C18", "note": NOTE, "technique": T_SYMX,
+    },
 }
 
 NOT_APPLICABLE = {
@@ -27,5 +56,4 @@ NOT_APPLICABLE = {
 
 # designed (DESIGN.md section 5) but the harness is not finished: not claimed, never checked with a weaker technique
 NOT_BUILT = {pid: "harness not built yet (DESIGN.md section 7.1 order of construction)" for pid in
-             ["C02", "C03", "C04", "C05", "C06", "C07", "C08", "C09", "C10", "C11", "C12", "C13", "C14",
-              "C15", "C16", "C17", "C18", "C19"]}
+             ["C03", "C04", "C05", "C06", "C09", "C11", "C12", "C13", "C14", "C15", "C16", "C17", "C19"]}
